@@ -422,7 +422,11 @@ pub fn run_case(case: &Case, rng: &mut Rng) -> J {
             names.sort();
             names.dedup();
             let e = execute_traced(&p, &case.funcs, Some(names));
-            obs.push(json!({"form": form, "src": p.main_src, "out": e.out, "log": e.log, "bind_ok": e.bind_after_ok, "vm": e.vm}));
+            let mut o = json!({"form": form, "src": p.main_src, "out": e.out, "log": e.log, "bind_ok": e.bind_after_ok});
+            if !e.vm.is_null() {
+                o["vm"] = e.vm; // absent when a program did not compile (the Json module of TLC has no null)
+            }
+            obs.push(o);
             continue;
         }
         let p = prepare(case, form, rng);
